@@ -42,7 +42,11 @@ CLAIMS = {
                  "atoms: C12; unit literals: C14. comparison_of_expressions: `e1 [not] op e2` with operands from the whole arithmetic grammar "
                  "parses to one comparison node (infix NOT negates the operator); between_is_atom/between_inclusive: `x [not] between lo and "
                  "hi` parses to x >= lo AND x <= hi (resp. the De Morgan complement) and is true exactly when lo ≤ x ≤ hi; column_vs_column: "
-                 "both operands are evaluated on the same entry. The binding of columns to lstat attributes and float/unit/date literals end "
+                 "both operands are evaluated on the same entry; literal_with_unit / int_atom_with_unit: a run of digits followed by a "
+                 "documented unit word is no integer and no float literal, so it denotes number × multiplier bytes (C14's unit_table over the "
+                 "generated ladder) and `size OP <digits><unit>` is the numeric comparison with that byte count, for every unit and every number "
+                 "that fits; atom_is_typed_comparison / pattern_on_any_type: pattern operators match the text of a value of any type (D74 fixed). "
+                 "The binding of columns to lstat attributes and float/fractional-unit/date literals end "
                  "to end are decided by the correspondence and by an independent Python evaluation of the documented meaning for every entry."),
         "ref": "DESIGN.md §4 C02",
     },
